@@ -89,7 +89,7 @@ def run(ctx):
     for pi in range(nproj):  # WRAPPED
         try:
             cfg = CONFIGS[(pi * ctx.nshards + ctx.shard) % len(CONFIGS)]
-            size = rng.choice(["small", "small", "medium", "medium", "large"])
+            size = rng.choice(["small", "small", "medium", "medium", "large", "fixture"])
             sc = LogixScenario(rng, size=size, config=cfg)
             res.count("projects")
             res.count(f"config:{sc.label}")
